@@ -30,6 +30,11 @@ def descriptor(group, case, f):
     d = {}
     if isinstance(case, dict):
         d.update(jsonable(case))
+        # one level of flattening for dict-valued fields: case["opts"]["nu"] -> "opts.nu"; cfg.* too
+        for k, v in list(d.items()):
+            if isinstance(v, dict):
+                for kk, vv in v.items():
+                    d.setdefault(f"{k}.{kk}", vv)
     d.update(f.get("extra") or {})
     d["group"] = group
     d["what"] = f["what"]
